@@ -977,10 +977,13 @@ func (c *specCtx) call(n *ast.CallExpr) (sv, error) {
 		case *types.Slice:
 			// type invariant of slice values (true of every slice value a program can hold)
 			if !strings.Contains(v.S, "q.") && c.st != nil {
-				key := "wf:" + v.S
+				// ... on the path it exists on: the term may be a slice constructed under a path
+				// condition (make([]T, n) after n >= 0 was established); asserting its invariant
+				// globally would make the other paths (n < 0) infeasible
+				key := "wf:" + c.st.pc + ":" + v.S
 				if !e.sc.funs[key] {
 					e.sc.funs[key] = true
-					e.sc.assert(and(e.le(e.sc.idxLit(0), "(s-len "+v.S+")"), e.le("(s-len "+v.S+")", "(s-cap "+v.S+")"), e.le("(s-cap "+v.S+")", e.sc.idxLit(maxLen))))
+					e.sc.assert(imp(c.st.pc, and(e.le(e.sc.idxLit(0), "(s-len "+v.S+")"), e.le("(s-len "+v.S+")", "(s-cap "+v.S+")"), e.le("(s-cap "+v.S+")", e.sc.idxLit(maxLen)))))
 				}
 			}
 			if id.Name == "len" {
